@@ -1,4 +1,4 @@
 SPECIFICATION Spec
-CONSTANT Devs = {"exact", "DevLoopOnce", "DevJumpNoExit"}
+CONSTANT Devs = {{}}
 INVARIANTS TypeOK Scoped WellFormed Report
 CHECK_DEADLOCK FALSE
